@@ -616,43 +616,63 @@ static void summarise(const char *err, char *dst, size_t cap) {
   snprintf(dst, cap, "none");
 }
 
+/* run the case whose lines are lines[0..n) (lines[0] is the "case ..." header) in a child of its own */
+static void one_case(char **lines, size_t n) {
+  pid_t pid; int st = 0, fd;
+  printf("%s\n", lines[0]); fflush(stdout);
+  fd = memfd_create("vdrv_err", 0);
+  pid = fork();
+  if (pid == 0) {
+    if (fd >= 0) dup2(fd, 2);
+    run_case(lines + 1, (int)(n - 1));
+    fflush(stdout);
+    _exit(0);
+  }
+  waitpid(pid, &st, 0);
+  if (!(WIFEXITED(st) && WEXITSTATUS(st) == 0)) {
+    static char err[1 << 16]; char sum[300]; ssize_t k = 0;
+    if (fd >= 0) { lseek(fd, 0, SEEK_SET); k = read(fd, err, sizeof err - 1); if (k < 0) k = 0; }
+    err[k] = 0;
+    summarise(err, sum, sizeof sum);
+    if (WIFSIGNALED(st) && WTERMSIG(st) == SIGALRM) printf("\ncrash timeout san=%s\n", sum);
+    else if (WIFSIGNALED(st)) printf("\ncrash signal=%d san=%s\n", WTERMSIG(st), sum);
+    else printf("\ncrash exit=%d san=%s\n", WEXITSTATUS(st), sum);
+    fflush(stdout);
+    fprintf(stderr, "=== %s\n%.6000s\n", lines[0], err);
+  }
+  if (fd >= 0) close(fd);
+}
+
+/* The script is consumed one case at a time and the text of a case lives in one buffer that is reused: the
+ * process that forks stays small however long the script is (fork() of a sanitized process costs time in
+ * proportion to what it has mapped - holding a 500 MB script made every case pay for it). */
 int main(int argc, char **argv) {
-  static char *lines[1 << 20]; size_t nl = 0; char *ln = NULL; size_t cap = 0; ssize_t k; size_t i;
+  static char *buf; static size_t blen, bcap; static size_t *off; static size_t noff, capoff; static char **lines; static size_t caplines;
+  char *ln = NULL; size_t cap = 0; ssize_t k; int have = 0, eof = 0;
   const char *sb = getenv("VDRV_SANDBOX");
+  (void)argc; (void)argv;
   setvbuf(stdout, NULL, _IOLBF, 0);
   if (sb && *sb) { if (!realpath(sb, sandbox)) sandbox[0] = 0; }
   if (sandbox[0]) { setenv("HOME", sandbox, 1); if (chdir(sandbox) != 0) sandbox[0] = 0; }
-  while ((k = getline(&ln, &cap, stdin)) >= 0) {
-    while (k > 0 && (ln[k - 1] == '\n' || ln[k - 1] == '\r')) ln[--k] = 0;
-    if (nl < (1 << 20)) lines[nl++] = strdup(ln);
-  }
-  for (i = 0; i < nl;) {
-    size_t j = i + 1; pid_t pid; int st = 0, fd;
-    if (strncmp(lines[i], "case ", 5)) { i++; continue; }
-    while (j < nl && strncmp(lines[j], "case ", 5)) j++;
-    printf("%s\n", lines[i]); fflush(stdout);
-    fd = memfd_create("vdrv_err", 0);
-    pid = fork();
-    if (pid == 0) {
-      if (fd >= 0) dup2(fd, 2);
-      run_case(lines + i + 1, (int)(j - i - 1));
-      fflush(stdout);
-      _exit(0);
+  while (!eof) {
+    int is_case;
+    k = getline(&ln, &cap, stdin);
+    if (k < 0) eof = 1;
+    else while (k > 0 && (ln[k - 1] == '\n' || ln[k - 1] == '\r')) ln[--k] = 0;
+    is_case = !eof && !strncmp(ln, "case ", 5);
+    if ((eof || is_case) && have) {
+      size_t i;
+      if (noff > caplines) { caplines = noff * 2; lines = realloc(lines, caplines * sizeof *lines); if (!lines) return 2; }
+      for (i = 0; i < noff; i++) lines[i] = buf + off[i];
+      one_case(lines, noff);
+      have = 0;
     }
-    waitpid(pid, &st, 0);
-    if (!(WIFEXITED(st) && WEXITSTATUS(st) == 0)) {
-      static char err[1 << 16]; char sum[300]; ssize_t n = 0;
-      if (fd >= 0) { lseek(fd, 0, SEEK_SET); n = read(fd, err, sizeof err - 1); if (n < 0) n = 0; }
-      err[n] = 0;
-      summarise(err, sum, sizeof sum);
-      if (WIFSIGNALED(st) && WTERMSIG(st) == SIGALRM) printf("\ncrash timeout san=%s\n", sum);
-      else if (WIFSIGNALED(st)) printf("\ncrash signal=%d san=%s\n", WTERMSIG(st), sum);
-      else printf("\ncrash exit=%d san=%s\n", WEXITSTATUS(st), sum);
-      fflush(stdout);
-      fprintf(stderr, "=== %s\n%.6000s\n", lines[i], err);
-    }
-    if (fd >= 0) close(fd);
-    i = j;
+    if (eof) break;
+    if (is_case) { blen = 0; noff = 0; have = 1; }
+    if (!have) continue;                                   /* anything before the first case header */
+    if (blen + (size_t)k + 1 > bcap) { bcap = (blen + (size_t)k + 1) * 2; buf = realloc(buf, bcap); if (!buf) return 2; }
+    if (noff + 1 > capoff) { capoff = (noff + 1) * 2; off = realloc(off, capoff * sizeof *off); if (!off) return 2; }
+    off[noff++] = blen; memcpy(buf + blen, ln, (size_t)k + 1); blen += (size_t)k + 1;
   }
   return 0;
 }
